@@ -8,7 +8,8 @@ RULE = ("for each of the 40 typed variants: seeded field-value tuples of the dec
         "maximal strings, binary names), encoded by the python reference encoder and parsed by the library; the same values built "
         "through the public constructors and serialised; the 30+ zonefile sample vectors of the repository; structural-rule "
         "violations (LOC version != 0, SVCB keys not strictly increasing, NSEC windows not increasing, inner lengths overrunning "
-        "the RDATA). non-trivial = record decodes; distinct = distinct canonical outputs")
+        "the RDATA); every one- and two-byte integer field of every type swept (all 256 values; 0..1023, the top 256 and the powers "
+        "of two with their neighbours for 16-bit fields) with and without trailing data, decoded and built. non-trivial = record decodes; distinct = distinct canonical outputs")
 INFO = {}
 
 
@@ -83,6 +84,20 @@ def cases(rng, tier):
                     c4 = "RR %s 0" % rr_wire(owner, code, cls, ttl, cut).hex()
                     INFO[c4] = ("rej", tname, "inner length overruns the RDATA")
                     out.append(c4)
+    # every one- and two-byte integer field swept (see dns.field_sweeps): decode side and build side
+    for n, (tname, vals) in enumerate(dns.field_sweeps(tier)):
+        code = dns.SCHEMA[tname][0]
+        rd = dns.enc_rdata_ref(tname, vals)
+        owner = [b"o"]
+        w = rr_wire(owner, code, 1, 60, rd)
+        c = "RR %s 0" % w.hex()
+        INFO[c] = ("dec", tname, vals, owner, 1, 60, len(w))
+        out.append(c)
+        p = {"id": n & 0xFFFF, "opcode": 0, "rcode": 0, "flags": 0, "opt": None, "qs": [], "ans": [
+            {"name": owner, "class": 1, "ttl": 60, "cf": False, "rdata": ("T", tname, vals)}], "nss": [], "adds": []}
+        c2 = "RT P " + dns.pkt_text(p)
+        INFO[c2] = ("enc", p)
+        out.append(c2)
     # OPT (RFC 6891): fixed part in the RR header, options in the RDATA; the record may be followed by other bytes
     for k in range(per):
         vals = dns.gen_typed_vals(rng, "OPT", None)
